@@ -23,6 +23,9 @@ def pick_point(rng, grid, lo, hi):
         return float(rng.choice(grid)) + rng.choice([-1, 1]) * 2.0 ** -29 * sp, 'band'
     if r < 0.55 and len(grid) > 1:
         return float(rng.choice(grid)) + rng.choice([-1, 1]) * 2.0 ** -12 * sp, 'near'
+    if r < 0.62 and len(grid) > 1:
+        # 2^-22 of the spread away from a node: outside the snapping band (1e-8), where the barycentric second-derivative formula cancels
+        return float(rng.choice(grid)) + rng.choice([-1, 1]) * 2.0 ** -22 * sp, 'close'
     for _ in range(50):
         x = lo + (hi - lo) * (rng.random() * 1.2 - 0.1)
         if min(abs(x - g) for g in grid) >= 2.0 ** -7 * sp:
@@ -40,7 +43,8 @@ def derivative_checks(ctx, sig, case, gn, data_sets, xf, kinds, grad, hess, nx):
         for order, arr in ((1, grad), (2, hess)):
             if arr is None:
                 continue
-            near = any(k == 'near' for k in kinds)     # 2^-12 of the spread away from a node: ill-conditioned but outside every band
+            near = any(k in ('near', 'close') for k in kinds)     # 2^-12 / 2^-22 of the spread away from a node: outside every band
+            close = any(k == 'close' for k in kinds)
             idxs = [(k,) for k in range(nx)] if order == 1 else [(k, l) for k in range(nx) for l in range(nx)]
             for idx in idxs:
                 scale = ysum * 16
@@ -55,7 +59,7 @@ def derivative_checks(ctx, sig, case, gn, data_sets, xf, kinds, grad, hess, nx):
                 got = float(arr[out][idx[0]] if order == 1 else arr[out][idx[0]][idx[1]])
                 if not (got == got and abs(Fraction(got) - ref) <= tol):
                     name = 'gradient' if order == 1 else 'hessian'
-                    ctx.violate(f'{sig}:{name}-wrong:{"/".join(sorted(set(kinds)))}',
+                    ctx.violate(f'{sig}:hessian-inaccurate-close-to-a-node' if (order == 2 and close) else f'{sig}:{name}-wrong:{"/".join(sorted(set(kinds)))}',
                                 f'{name} of {out} w.r.t. x{idx} is {got}; the derivative of the interpolation polynomial is {float(ref)} '
                                 f'(allowed {float(tol):.2e}); coordinates are {kinds}', {**case, 'index': idx})
                     return False
@@ -135,6 +139,8 @@ def interp_level(ctx: Ctx):
             for m_, row in enumerate(gimpl[1]):
                 for n_, hv in enumerate(row):
                     sc = (sum(abs(Fraction(t)) for t in y.tolist()) + 1) * 16 / (msp[m_] * msp[n_])
+                    if 'close' in case['kinds']:
+                        continue          # reported by the derivative oracle (recorded finding F23)
                     near = 'near' in case['kinds'] or 'band' in case['kinds']
                     if not (hv == hv and abs(Fraction(hv) - unq(mo[m_][n_])) <= Fraction(1, 10 ** (6 if near else 8)) * sc):
                         ctx.disagree('C11:Lagrange.hessian', {**case, 'output': o, 'entry': (m_, n_)}, float(unq(mo[m_][n_])), hv); bad = True; break
